@@ -6,6 +6,7 @@ CONSTANTS
   MaxWrites = 3
   MaxPersists = 2
   AllowSync = TRUE
+  AllowFail = TRUE
   AllowDelete = TRUE
   BugNoTemp = FALSE
 VIEW mview
